@@ -15,6 +15,15 @@ def reset_globals():
     cylc.flow.flags.verbosity = 0
     cylc.flow.flags.cylc7_back_compat = False
     try:
+        # singleton cache of parsed graph nodes: holds cycling-mode specific
+        # offsets ("a[^]" -> "+P0" in integer mode, "+P0Y" in datetime mode),
+        # cleared by cylc only in get_graph_raw(); one scheduler process only
+        # ever sees one cycling mode, a check process sees both
+        from cylc.flow.graphnode import GraphNodeParser
+        GraphNodeParser.get_inst().clear()
+    except Exception:
+        pass
+    try:
         from cylc.flow.cycling import iso8601
         for name in dir(iso8601):
             obj = getattr(iso8601, name)
